@@ -65,6 +65,13 @@ def symbols(lang, text):
             i = m.end()
             continue
         two, three = text[i:i + 2], text[i:i + 3]
+        if py and text[i] == "\\" and i + 1 < n:
+            # a backslash takes exactly the NEXT CHARACTER with it: `\""""` is an escaped quote followed by a triple quote
+            nxt = text[i + 1]
+            out.append("BS")
+            out.append({"\n": "NL", '"': "DQ", "'": "SQ", "\\": "BS", "#": "HASH", "`": "BT"}.get(nxt, "X"))
+            i += 2
+            continue
         if py and three == '"""':
             out.append("TDQ"); i += 3; continue
         if py and three == "'''":
